@@ -589,6 +589,24 @@ func genC14(t *rapid.T, p *gen.Profile) *C14Case {
 				Pos: refclient.Pos{Line: rapid.IntRange(0, 12).Draw(t, "pline"), Char: rapid.IntRange(0, 30).Draw(t, "pchar")}})
 		}
 	}
+	if rapid.IntRange(0, 3).Draw(t, "configpattern") == 0 {
+		// configuration changes in quick succession (limits among them, which rebuild the include trees)
+		// with requests arriving meanwhile and after everything has settled
+		d := rapid.IntRange(0, n-1).Draw(t, "cpdoc")
+		c.Ops = append(c.Ops, C14Op{Op: "open", Doc: d, Wait: 2})
+		for k := rapid.IntRange(2, 3).Draw(t, "cpchanges"); k > 0; k-- {
+			cfg := genC14Config(t)
+			cfg["limits"] = map[string]any{"maxIncludeDepth": float64(rapid.IntRange(1, 6).Draw(t, "cpdepth"))}
+			c.Ops = append(c.Ops, C14Op{Op: "config", Doc: d, Config: cfg, Wait: rapid.SampledFrom([]int{0, 0, 1}).Draw(t, "cpwait")})
+			c.Ops = append(c.Ops, C14Op{Op: "request", Doc: d, Kind: rapid.SampledFrom([]string{"completion", "inlineCompletion", "hover", "references"}).Draw(t, "cpkind"),
+				Pos: refclient.Pos{Line: rapid.IntRange(0, 12).Draw(t, "cpline"), Char: rapid.IntRange(0, 30).Draw(t, "cpchar")}})
+		}
+		c.Ops = append(c.Ops, C14Op{Op: "request", Doc: d, Kind: "formatting", Wait: 2})
+		for k := 0; k < 2; k++ {
+			c.Ops = append(c.Ops, C14Op{Op: "request", Doc: d, Kind: rapid.SampledFrom([]string{"completion", "formatting", "inlineCompletion"}).Draw(t, "cpkind2"),
+				Pos: refclient.Pos{Line: rapid.IntRange(0, 12).Draw(t, "cpline2"), Char: rapid.IntRange(0, 30).Draw(t, "cpchar2")}})
+		}
+	}
 	if n >= 2 && rapid.IntRange(0, 3).Draw(t, "includepattern") == 0 {
 		// an included file that is open changes while the analysis of the including document is
 		// between reading that file and storing its result; then requests on the including document
